@@ -47,6 +47,8 @@ CHILD = {
     # a volatile helper that spawns one more regular child into the scope in the time step in which the last regular child
     # finishes (queued behind it, ahead of the owner's wake-up)
     'vspawn1': [['D', 1], ['TRY', [['DO', 'late', [['D', 1], ['PROBE', 'now']], {'scope': 's0'}]]], ['ETERNITY']],
+    # a volatile helper that reacts to the shutdown of its scope (`await scope`) by handing in some last regular work
+    'vwaitspawn': [['AWAITSCOPE', 's0'], ['TRY', [['DO', 'late', [['D', 1], ['PROBE', 'now']], {'scope': 's0'}]]], ['ETERNITY']],
     'vspawn2': [['D', 2], ['TRY', [['DO', 'late', [['D', 1], ['PROBE', 'now']], {'scope': 's0'}]]], ['ETERNITY']],
     # children whose payload is a bare awaitable instead of a coroutine
     'bare2': [], 'bareev': [], 'bareflag': [], 'bareinst': [],
@@ -54,7 +56,7 @@ CHILD = {
 CHILD_OPTS = {'after2': {'after': 2}, 'at2': {'at': 2}, 'after1': {'after': 1},
               'bare2': {'bare': ['DELAY', 2]}, 'bareev': {'bare': ['ETERNITY']}, 'bareflag': {'bare': ['F', 'stop']},
               'bareinst': {'bare': ['INSTANT']}}
-VOLATILE = ('tick', 'forever', 'finspawn', 'd1', 'after2', 'finraise', 'vspawn1', 'vspawn2', 'bareev', 'bare2')
+VOLATILE = ('tick', 'forever', 'finspawn', 'd1', 'after2', 'finraise', 'vspawn1', 'vspawn2', 'vwaitspawn', 'bareev', 'bare2')
 BODIES = {
     'none': [],
     'd1': [['D', 1]],
@@ -110,7 +112,7 @@ def rename(script, i):
 def cases(tier):
     thorough = tier == 'thorough'
     out = []
-    SPECIAL = ('vspawn1', 'vspawn2', 'bare2', 'bareev', 'bareflag', 'bareinst', 'fe1', 'fe1b', 'fe2')
+    SPECIAL = ('vspawn1', 'vspawn2', 'vwaitspawn', 'bare2', 'bareev', 'bareflag', 'bareinst', 'fe1', 'fe1b', 'fe2')
     singles = [k for k in CHILD if k not in ('vict', 'killer', 'awaitv', 'victf', 'awaitf', 'awaitf1') + SPECIAL]
     pairs_a = ['d1', 'd2', 'f0', 'f1', 'f1b', 'f2', 'priv1', 'nest_fail', 'nest_slow', 'late1', 'waiter', 'finspawn', 'tick',
                'after2', 'at2', 'finraise']
@@ -167,6 +169,12 @@ def cases(tier):
                 for sp in ('vspawn1', 'vspawn2'):
                     out.append(program(kind, [(first, first == 'tick'), (sp, True)], body))
                     out.append(program(kind, [(sp, True), (first, first == 'tick')], body))
+            # (the body ends while ONLY volatile children are alive, one of which waits for the shutdown to hand in regular work)
+            out.append(program(kind, [('vwaitspawn', True)], body))
+            out.append(program(kind, [('vwaitspawn', True), ('forever', True)], body))
+            for other in ('d1', 'd2', 'f1'):
+                out.append(program(kind, [('vwaitspawn', True), (other, False)], body))
+                out.append(program(kind, [(other, False), ('vwaitspawn', True)], body))
             for b in ('bare2', 'bareev', 'bareflag', 'bareinst'):
                 for v in ((False, True) if b in ('bare2', 'bareev') else (False,)):
                     if b == 'bareev' and not v:
